@@ -589,6 +589,26 @@ pub fn gen_mean(rng: &mut Rng, tier: &Tier) -> Vec<Case> {
             cases.push(c);
         }
     }
+    // the smallest machine integers at the widest window their arithmetic can hold (the weight counts up to N = MAX of
+    // the type) and at small widths with samples as large as the window sum allows: every sum the property's formula
+    // forms — and the weight — is representable, so the mean is owed (no step may need more room than that)
+    for (t, n, vals) in [
+        ("u8", 255usize, vec![0i64, 1]),
+        ("u8", 255, vec![1]),
+        ("i8", 127, vec![0, 1]),
+        ("i8", 127, vec![-1, 0]),
+        ("u8", 3, vec![0, 1, 40, 85]),
+        ("i8", 5, vec![-25, -1, 0, 1, 25]),
+    ] {
+        for _ in 0..tier.n(1, 3) {
+            let mut c = vec![format!("new 1 mean N={} T={}", n, t)];
+            for _ in 0..(n + rng.range(3, 30) as usize) {
+                c.push(format!("f 1 {}", rng.pick(&vals)));
+            }
+            c.push("guts 1 weight".into());
+            cases.push(c);
+        }
+    }
     // finite memory: two histories that agree on the last N samples continue identically
     for &n in &[1usize, 2, 3, 5] {
         for _ in 0..tier.n(20, 200) {
@@ -635,7 +655,16 @@ pub(crate) fn deque_inject_cases(rng: &mut Rng, tier: &Tier, kind: &str, cases: 
                 let mut ok = lines.iter().all(|l| try_exec(&mut it, l, &mut trace).is_some());
                 let mut time = 0usize;
                 let mut taps2: Vec<String> = vec![];
-                let target = usize::MAX - j;
+                // mostly the top of the range (the rebase); sometimes a clock about to cross 2^63, 2^32, 2^31 or 2^16 — where a
+                // signed or narrowed copy of it would change sign or wrap
+                let base: usize = match rng.below(8) {
+                    0 => 1usize << 63,
+                    1 => 1usize << 32,
+                    2 => 1usize << 31,
+                    3 => 1usize << 16,
+                    _ => usize::MAX,
+                };
+                let target = base - j;
                 if ok {
                     let parsed = (|| -> Option<(usize, Vec<String>)> {
                         let time: usize = try_exec(&mut it, "guts 1 time", &mut trace)?.parse().ok()?;
@@ -808,6 +837,48 @@ pub fn gen_conv(rng: &mut Rng, tier: &Tier) -> Vec<Case> {
     }
     cases.extend(wide_cases(rng, tier, "delay", &[]));
     cases.extend(signed_zero_cases(rng, tier, &["delay"]));
+    // normalised float kernels at any absolute scale: small integers times a power of two (exact), the sum non-zero —
+    // however tiny in absolute terms, "the coefficient sum is non-zero" and a constant signal comes back
+    for t in ["f64", "f32"] {
+        let (lo, hi) = if t == "f32" { (-120, 120) } else { (-1000, 1000) };
+        for _ in 0..tier.n(25, 250) {
+            let n = rng.range(1, 6) as usize;
+            let ints: Vec<i64> = loop {
+                let v: Vec<i64> = (0..n).map(|_| rng.range(-4, 4)).collect();
+                if v.iter().sum::<i64>() != 0 {
+                    break v;
+                }
+            };
+            let scale = 2f64.powi(if rng.chance(1, 4) { rng.range(-3, 3) } else { rng.range(lo, hi) } as i32);
+            let kernel: Vec<String> = ints.iter().map(|c| fbits(t, *c as f64 * scale)).collect();
+            let mut c = vec![format!("new 1 convolve_norm c={} T={}", kernel.join(","), t), "cfg 1".to_string()];
+            let x = fbits(t, rng.range(-12, 12) as f64 / 4.0);
+            for _ in 0..(n + 2) {
+                c.push(format!("f 1 {}", x));
+            }
+            cases.push(c);
+        }
+    }
+    // kernels with structure: palindromes, a second half that REPEATS the first (not a palindrome), all taps equal,
+    // zeros inside — whatever a filter concludes from the shape of its kernel, the output is still the FIR sum
+    for _ in 0..tier.n(60, 600) {
+        let n = rng.range(2, 9) as usize;
+        let half: Vec<i64> = (0..(n + 1) / 2).map(|_| rng.range(-4, 4)).collect();
+        let mut k: Vec<i64> = match rng.below(4) {
+            0 => { let mut v = half[..n / 2].to_vec(); if n % 2 == 1 { v.push(half[n / 2]); } let mut r = half[..n / 2].to_vec(); r.reverse(); v.extend(r); v }
+            1 => { let mut v = half[..n / 2].to_vec(); if n % 2 == 1 { v.push(rng.range(-4, 4)); } v.extend(half[..n / 2].to_vec()); v }
+            2 => vec![rng.range(-3, 3); n],
+            _ => (0..n).map(|_| if rng.chance(1, 2) { 0 } else { rng.range(-4, 4) }).collect(),
+        };
+        k.truncate(n);
+        let kernel: Vec<String> = k.iter().map(|x| x.to_string()).collect();
+        let kind = if rng.chance(1, 4) { "convolve_norm" } else { "convolve" };
+        let mut c = vec![format!("new 1 {} c={}", kind, kernel.join(","))];
+        for _ in 0..(n + rng.range(2, 8) as usize) {
+            c.push(format!("f 1 {}", rng.range(-6, 6)));
+        }
+        cases.push(c);
+    }
     // kernels longer than any small block size (17, 20, 24, 33, 40 taps), plain and normalised
     for &n in &[17usize, 20, 24, 33, 40] {
         for _ in 0..tier.n(2, 12) {
@@ -921,6 +992,9 @@ fn special_first(rng: &mut Rng, t: &str) -> String {
         format!("y{:08x}", if v.is_nan() { 0x7fc0_0000 } else { v.to_bits() })
     }
 }
+fn fbits_nan(t: &str, x: f64) -> String {
+    if x.is_nan() { (if t == "f64" { "x7ff8000000000000" } else { "y7fc00000" }).to_string() } else { fbits(t, x) }
+}
 fn fbits(t: &str, x: f64) -> String {
     if t == "f64" { format!("x{:016x}", x.to_bits()) } else { format!("y{:08x}", (x as f32).to_bits()) }
 }
@@ -936,9 +1010,19 @@ fn float_first_cases(rng: &mut Rng, n: usize, kinds: &[&str]) -> Vec<Case> {
             "emedian" => format!("new 1 emedian pre={} mid={} post={} T={}", g(rng), g(rng), g(rng), t),
             _ => format!("new 1 alphabeta alpha={} beta={} T={}", g(rng), g(rng), t),
         };
-        let mut c = vec![new, format!("f 1 {}", special_first(rng, t))];
-        for _ in 0..rng.range(0, 3) {
-            c.push(format!("f 1 {}", fbits(t, rng.range(-8, 8) as f64 / 4.0)));
+        let mut c = vec![new];
+        if rng.chance(1, 3) {
+            // a constant signal, at any magnitude the type can hold, is reproduced exactly
+            let big = if t == "f64" { f64::MAX } else { f32::MAX as f64 };
+            let x = *rng.pick(&[big, -big, big / 2.0, big / 2.0 * 1.5, -big / 4.0 * 3.0, 1.0, -3.5, 1e-30]);
+            for _ in 0..rng.range(2, 5) {
+                c.push(format!("f 1 {}", fbits(t, x)));
+            }
+        } else {
+            c.push(format!("f 1 {}", special_first(rng, t)));
+            for _ in 0..rng.range(0, 3) {
+                c.push(format!("f 1 {}", fbits(t, rng.range(-8, 8) as f64 / 4.0)));
+            }
         }
         if rng.chance(1, 2) {
             c.push("reset 1".into());
@@ -1112,6 +1196,18 @@ pub fn gen_diffint(rng: &mut Rng, tier: &Tier) -> Vec<Case> {
         cases.push(c);
     }
     cases.extend(long_cases(rng, &["integrate".to_string(), "differentiate".to_string()]));
+    // zeros of either sign next to each other (their difference and their sum are zeros too, of a sign the operands
+    // determine): every sequence over {+0, -0, 1, -1} of length 3 (thorough: 4)
+    for kind in ["differentiate_b", "integrate_b"] {
+        for s in all_seqs(4, if tier.thorough { 4 } else { 3 }) {
+            let mut c = vec![format!("new 1 {} T=f32", kind)];
+            for i in s {
+                let x: f32 = [0.0f32, -0.0, 1.0, -1.0][i as usize];
+                c.push(format!("f 1 y{:08x}", x.to_bits()));
+            }
+            cases.push(c);
+        }
+    }
     // at f32 on the bit-pattern protocol: infinities, NaN, jumps larger than the mantissa — each output is ONE operation
     // of the type's own arithmetic on the inputs, so it is compared bit for bit
     for _ in 0..tier.n(80, 800) {
@@ -1215,6 +1311,21 @@ pub fn gen_classify8(rng: &mut Rng, tier: &Tier) -> Vec<Case> {
             cases.push(c);
         }
     }
+    // run counter (and threshold) next to the powers of two a narrower integer would wrap at
+    for base in [1usize << 32, 1usize << 31, 1usize << 16, 1usize << 8, 1usize << 63] {
+        for j in 0..=3usize {
+            for _ in 0..tier.n(4, 40) {
+                let p = rng.range(0, 1);
+                let thr = *rng.pick(&[1usize, 3, 5, base - 1, base, base + 5, base + (base >> 1)]);
+                let mut c = vec![format!("inject 1 debounce thr={} pred={} out=-7,11 count={}", thr, p, base - j)];
+                for _ in 0..rng.range(2, 9) {
+                    c.push(format!("f 1 {}", if rng.chance(7, 8) { p } else { 1 - p }));
+                    c.push("guts 1 count".into());
+                }
+                cases.push(c);
+            }
+        }
+    }
     // run counter injected near usize::MAX
     for j in 0..=3usize {
         for _ in 0..tier.n(20, 200) {
@@ -1291,6 +1402,37 @@ pub fn gen_classify9(rng: &mut Rng, tier: &Tier) -> Vec<Case> {
         }
         cases.push(c);
     }
+    // hand-assembled states of the detectors (their state is public): a stream handed over mid-way — from samples to
+    // slopes, from one detector to another. The "previous slope" of a peak detector is what its state says it is; the
+    // nested slope filter's memory is given either the same value or another one (the slope-driven path does not read it)
+    for _ in 0..tier.n(80, 800) {
+        let opt_code = |rng: &mut Rng| (*rng.pick(&["none", "0", "1", "2"])).to_string();
+        let via = if rng.chance(1, 3) { " via=statemut" } else { "" };
+        let mut c = Vec::new();
+        match rng.below(3) {
+            0 => {
+                let prev = opt_code(rng);
+                let mem = if rng.chance(1, 2) { prev.clone() } else { opt_code(rng) };
+                c.push(format!("inject 1 peaks_slopes out=21,22,23 prev={} mem={}{}", prev, mem, via));
+                for _ in 0..rng.range(1, 5) {
+                    c.push(format!("f 1 {}", rng.below(3)));
+                }
+            }
+            1 => {
+                c.push(format!("inject 1 peaks out=21,22,23 prev={} slope={}{}", opt_rat(rng), opt_code(rng), via));
+                for x in rat_seq_in(rng, 1, 5) {
+                    c.push(format!("f 1 {}", x));
+                }
+            }
+            _ => {
+                c.push(format!("inject 1 slopes out=21,22,23 input={}{}", opt_rat(rng), via));
+                for x in rat_seq_in(rng, 1, 4) {
+                    c.push(format!("f 1 {}", x));
+                }
+            }
+        }
+        cases.push(c);
+    }
     // composite-like samples (`3~`: what `(3.0, NaN)` is among lexicographically compared tuples — unequal even to itself,
     // yet greater / smaller than other values): still rising / falling against a different predecessor, flat otherwise
     for _ in 0..tier.n(80, 800) {
@@ -1355,6 +1497,53 @@ pub fn gen_reset(rng: &mut Rng, tier: &Tier) -> Vec<Case> {
             }
             cases.push(c);
         }
+    }
+    // a cache wrapper whose inner filter has a past the wrapper did not see (fed directly, the wrapper taken apart and put
+    // together again) — with nothing remembered yet, or something: reset makes the whole thing fresh
+    for _ in 0..tier.n(60, 600) {
+        let k = random_kind(rng, "cache");
+        let mut c = vec![format!("new 1 {}", k.params)];
+        for _ in 0..rng.range(1, 2 * k.width as i64 + 3) {
+            let x = random_input(rng, &k);
+            c.push(if rng.chance(2, 3) { format!("fi 1 {}", x) } else { format!("f 1 {}", x) });
+        }
+        c.push("acc 1 cached".into());
+        if rng.chance(1, 2) {
+            c.push("sm 1".into());
+            c.push("acc 1 cached".into());
+        }
+        c.push("reset 1".into());
+        c.push("acc 1 cached".into());
+        c.push("fresh 1 2".into());
+        for _ in 0..rng.range(2, k.width as i64 + 4) {
+            let x = random_input(rng, &k);
+            c.push(format!("f 1 {}", x));
+            c.push(format!("f 2 {}", x));
+            c.push("same 1 2 C12.reset-eq-fresh".into());
+        }
+        cases.push(c);
+    }
+    // the windowed filters with running sums at floats: once an infinity or a NaN has passed through, the sums are
+    // poisoned for good (`inf - inf`) — a reset filter has no such past
+    for _ in 0..tier.n(60, 600) {
+        let t = *rng.pick(&["f64", "f32"]);
+        let n = *rng.pick(&[1usize, 1, 2, 3]);
+        let kind = *rng.pick(&["mean", "mean", "meanvar", "delay"]);
+        let mut c = vec![format!("new 1 {} N={} T={}", kind, n, t)];
+        let special = |rng: &mut Rng| *rng.pick(&[f64::INFINITY, f64::NEG_INFINITY, f64::NAN, 1.5, -2.0, 0.0]);
+        for _ in 0..rng.range(1, 2 * n as i64 + 2) {
+            let x = special(rng);
+            c.push(format!("f 1 {}", fbits_nan(t, x)));
+        }
+        c.push("reset 1".into());
+        c.push("fresh 1 2".into());
+        for _ in 0..rng.range(2, n as i64 + 3) {
+            let x = fbits(t, rng.range(-8, 8) as f64 / 2.0);
+            c.push(format!("f 1 {}", x));
+            c.push(format!("f 2 {}", x));
+            c.push("same 1 2 C12.reset-eq-fresh".into());
+        }
+        cases.push(c);
     }
     // reset of a deque whose clock is about to run out (the public state re-injected with shifted time stamps): a reset
     // filter is a fresh filter whatever its past
@@ -1531,6 +1720,29 @@ pub fn gen_copy(rng: &mut Rng, tier: &Tier) -> Vec<Case> {
             }
             cases.push(c);
         }
+        // the state re-injected IN PLACE: a filter that has a past of its own gets its state overwritten (through
+        // `state_mut`, or by `clone_from`) with a copy of the state of another one — a fresh one, or one elsewhere in
+        // its stream; from then on it is a copy of that one, nothing of its own past remains
+        for _ in 0..tier.n(10, 100) {
+            let k = random_kind(rng, kind);
+            let mut c = vec![format!("new 1 {}", k.params), "fresh 1 2".to_string()];
+            for _ in 0..rng.range(1, 2 * k.width as i64 + 3) {
+                c.push(format!("f 1 {}", random_input(rng, &k)));
+            }
+            if rng.chance(1, 2) {
+                for _ in 0..rng.range(1, k.width as i64 + 2) {
+                    c.push(format!("f 2 {}", random_input(rng, &k)));
+                }
+            }
+            c.push((if rng.chance(2, 3) { "stset 1 2" } else { "clonefrom 1 2" }).to_string());
+            for _ in 0..rng.range(1, 2 * k.width as i64 + 3) {
+                let x = random_input(rng, &k);
+                c.push(format!("f 1 {}", x));
+                c.push(format!("f 2 {}", x));
+                c.push("same 1 2 C20.copy-continues".into());
+            }
+            cases.push(c);
+        }
         // every split point of one history: before each sample a clone and a guts copy are taken, all three get the
         // sample (and one more), the copies are then discarded - a copy taken in ANY reachable state must agree
         for _ in 0..tier.n(8, 80) {
@@ -1646,6 +1858,11 @@ pub fn gen_cache(rng: &mut Rng, tier: &Tier) -> Vec<Case> {
             c.push(format!("f 2 {}", x));
             c.push("same 1 2 C20.cache-transparent".into());
             c.push("acc 1 cached".into());
+            if rng.chance(1, 5) {
+                // looking at the wrapper's state through `state_mut` changes nothing — it still remembers its last result
+                c.push("sm 1".into());
+                c.push("acc 1 cached".into());
+            }
         }
         cases.push(c);
     }
@@ -1705,10 +1922,10 @@ fn with_lifecycle(cases: Vec<Case>, rng: &mut Rng) -> Vec<Case> {
         let in_step: Vec<usize> = (1..body.len())
             .filter(|&i| body[i].starts_with("f ") && (news.len() == 1 || !body[i - 1].starts_with("f ")))
             .collect();
-        let pick = match rng.below(7) {
+        let pick = match rng.below(9) {
             // (no rewinding where an instance's inputs encode the history of the whole signal: `compose` lines, the
             // slope-driven peak detector fed by an external slope filter)
-            5 if in_step.is_empty() || c.iter().any(|l| l.starts_with("compose") || l.contains("peaks_slopes")) => 0,
+            5 | 8 if in_step.is_empty() || c.iter().any(|l| l.starts_with("compose") || l.contains("peaks_slopes")) => 0,
             k => k,
         };
         match pick {
@@ -1717,6 +1934,20 @@ fn with_lifecycle(cases: Vec<Case>, rng: &mut Rng) -> Vec<Case> {
                     v.push(format!("reset {}", id));
                 }
                 v.extend(body.iter().cloned());
+            }
+            7 => {
+                // a second filter built from the configuration the first one hands out (`with_config(f.config())`, the
+                // "another channel like this one" idiom): fed the same samples, it owes the same answers
+                for id in &news {
+                    v.push(format!("freshcfg {} {}", id, id.parse::<u64>().unwrap() + 50));
+                }
+                for l in &body {
+                    let mut t: Vec<String> = l.split(' ').map(|x| x.to_string()).collect();
+                    if t[0] == "f" && news.contains(&t[1]) {
+                        t[1] = (t[1].parse::<u64>().unwrap() + 50).to_string();
+                        v.push(t.join(" "));
+                    }
+                }
             }
             6 => {
                 // the state looked at through `StateMut::state_mut` (the only way to inspect a live filter) after some of
@@ -1731,15 +1962,16 @@ fn with_lifecycle(cases: Vec<Case>, rng: &mut Rng) -> Vec<Case> {
                     }
                 }
             }
-            5 => {
-                // rewind to a snapshot: `filter.clone_from(&snapshot)` where the snapshot is a pristine instance and the
-                // filter has been used — afterwards the filter is what the snapshot is, nothing of its own past remains
+            5 | 8 => {
+                // rewind to a snapshot: `filter.clone_from(&snapshot)` (5), or the snapshot's STATE written over the
+                // filter's in place through `state_mut` (8), where the snapshot is a pristine instance and the filter has
+                // been used — afterwards the filter is what the snapshot is, nothing of its own past remains
                 let at = news.len() + *rng.pick(&in_step);
                 let tail: Vec<String> = v.split_off(at);
                 for id in &news {
                     let snap = id.parse::<u64>().unwrap() + 50;
                     v.push(format!("fresh {} {}", id, snap));
-                    v.push(format!("clonefrom {} {}", id, snap));
+                    v.push(format!("{} {} {}", if pick == 5 { "clonefrom" } else { "stset" }, id, snap));
                 }
                 v.extend(tail);
             }
